@@ -1521,6 +1521,16 @@ def h_try_into(I, st, callee, target, args, ctx):
     ty = ctx["body"]["locals"][dest["l"]] if not dest["p"] else None
     t = I.f.types[ty]
     # Result<heapless::Vec<u8,N>, ()>
+    if t["k"] == "adt" and t["def"] == RESULT and isinstance(v, VInt) and I.rty(t["args"][0]["ty"])["k"] == "int":
+        # integer TryFrom: Ok(value) exactly when it fits the target type
+        okt = I.rty(t["args"][0]["ty"])
+        tr = ty_range(okt["w"], okt["s"])
+        lv = lin_of(st, v)
+        lo_ok = decide_le0(st, -lv + tr.min(), "int try_from")
+        hi_ok = lo_ok and decide_le0(st, lv - tr.max(), "int try_from")
+        if lo_ok and hi_ok:
+            return [(st, mk_ok(VInt(okt["w"], okt["s"], lin=lv)))]
+        return [(st, mk_err(VOpaque("TryFromIntError")))]
     if t["k"] == "adt" and t["def"] == RESULT:
         okt = I.rty(t["args"][0]["ty"])
         if okt["k"] == "array" and isinstance(v, VSlice) and isinstance(okt.get("len"), int):
@@ -2256,6 +2266,26 @@ def h_to_vec(I, st, callee, target, args, ctx):
 @ext("core:[T]::first", "core:[T]::get")
 def h_slice_first(I, st, callee, target, args, ctx):
     v = deref(I, st, args[0])
+    if isinstance(v, VList) and target["def"].endswith("::get"):
+        # a constant table: Some(&table[i]) when i is in range
+        il = lin_of(st, args[1])
+        vals = st.lin_set(il)
+        if not vals.is_single():
+            sa = il.single_atom()
+            if sa and abs(sa[1]) == 1 and vals.size() <= 256:
+                at, k, c = sa
+                raise NeedSplit(at, [IntSet.of((x - c) * k) for x in vals.values()])
+            raise Unanalysable("get on a table with a symbolic index")
+        i = vals.single()
+        if 0 <= i < len(v.items):
+            c = I.new_cell(st, v.items[i])
+            return [(st, mk_some(VRef(c, ())))]
+        return [(st, NONE)]
+    if isinstance(v, VList) and target["def"].endswith("::first"):
+        if v.items:
+            c = I.new_cell(st, v.items[0])
+            return [(st, mk_some(VRef(c, ())))]
+        return [(st, NONE)]
     if not isinstance(v, VSlice):
         raise Unanalysable("first/get on %r" % (v,))
     idx = 0
@@ -2270,7 +2300,7 @@ def h_slice_first(I, st, callee, target, args, ctx):
     return [(st, NONE)]
 
 
-@ext("core:Option<T>::copied", "core:Option<T>::cloned")
+@ext("core:Option<T>::copied", "core:Option<T>::cloned", "core:Option<&T>::copied", "core:Option<&T>::cloned", "core:Option<&mut T>::copied", "core:Option<&mut T>::cloned")
 def h_opt_copied(I, st, callee, target, args, ctx):
     v = args[0]
     if isinstance(v, VAdt) and v.adt == OPTION:
@@ -2764,3 +2794,183 @@ def h_opt_transpose(I, st, callee, target, args, ctx):
                 return [(st, mk_ok(mk_some(inner.fields[0])))]
             return [(st, mk_err(inner.fields[0]))]
     raise Unanalysable("Option::transpose on %r" % (v,))
+
+
+# ---- more Option / Result adaptors (concrete Option / Result values; leaf applications are forced) --
+
+def _opt_val(I, st, v):
+    """[(st, concrete Option)]"""
+    out = []
+    for s2, x in force_app(I, st, v):
+        if isinstance(x, VAdt) and x.adt == OPTION:
+            out.append((s2, x))
+        elif isinstance(x, VSymEnum) and x.adt == OPTION:
+            for s3 in s2.copy().assume(("in", x.disc, IntSet.of(1)), True):
+                out.append((s3, mk_some(x.by_variant[1][0])))
+            for s3 in s2.copy().assume(("in", x.disc, IntSet.of(0)), True):
+                out.append((s3, NONE))
+        else:
+            raise Unanalysable("Option adaptor on %r" % (x,))
+    return out
+
+
+@ext("core:Option<T>::map_or", "core:Option<T>::map_or_else")
+def h_opt_map_or(I, st, callee, target, args, ctx):
+    v, dflt, f = args
+    out = []
+    lazy = target["def"].endswith("map_or_else")
+    for s2, o in _opt_val(I, st, v):
+        if o.variant == 1:
+            out += I.apply_callable(s2, f, [o.fields[0]], ctx)
+        elif lazy:
+            out += I.apply_callable(s2, dflt, [], ctx)
+        else:
+            out.append((s2, dflt))
+    return out
+
+
+@ext("core:Option<T>::is_some_and", "core:Option<T>::is_none_or")
+def h_opt_is_some_and(I, st, callee, target, args, ctx):
+    v, f = args
+    none_val = target["def"].endswith("is_none_or")
+    out = []
+    for s2, o in _opt_val(I, st, v):
+        if o.variant == 0:
+            out.append((s2, VBool(none_val)))
+        else:
+            out += I.apply_callable(s2, f, [o.fields[0]], ctx)
+    return out
+
+
+@ext("core:Option<T>::or", "core:Option<T>::or_else", "core:Option<T>::xor")
+def h_opt_or(I, st, callee, target, args, ctx):
+    v, other = args
+    name = target["def"].rsplit("::", 1)[1]
+    out = []
+    for s2, o in _opt_val(I, st, v):
+        if name == "or":
+            out.append((s2, o if o.variant == 1 else other))
+        elif name == "or_else":
+            if o.variant == 1:
+                out.append((s2, o))
+            else:
+                out += I.apply_callable(s2, other, [], ctx)
+        else:
+            for s3, o2 in _opt_val(I, s2, other):
+                out.append((s3, o if (o.variant == 1 and o2.variant == 0) else (o2 if (o.variant == 0 and o2.variant == 1) else NONE)))
+    return out
+
+
+@ext("core:Option<T>::zip")
+def h_opt_zip(I, st, callee, target, args, ctx):
+    a, b = args
+    out = []
+    for s2, x in _opt_val(I, st, a):
+        for s3, y in _opt_val(I, s2, b):
+            out.append((s3, mk_some(VTuple((x.fields[0], y.fields[0]))) if (x.variant == 1 and y.variant == 1) else NONE))
+    return out
+
+
+@ext("core:Option<T>::as_ref", "core:Option<T>::as_mut")
+def h_opt_as_ref(I, st, callee, target, args, ctx):
+    r = args[0]
+    v = deref(I, st, r)
+    if isinstance(v, VAdt) and v.adt == OPTION:
+        if v.variant == 0:
+            return [(st, NONE)]
+        if isinstance(r, VRef):
+            return [(st, mk_some(VRef(r.cell, r.path + (("dc", 1), ("f", 0)))))]
+        c = I.new_cell(st, v.fields[0])
+        return [(st, mk_some(VRef(c, ())))]
+    raise Unanalysable("Option::as_ref on %r" % (v,))
+
+
+@ext("core:Result<T, E>::err")
+def h_res_err(I, st, callee, target, args, ctx):
+    v = args[0]
+    if isinstance(v, VAdt) and v.adt == RESULT:
+        return [(st, mk_some(v.fields[0]) if v.variant == 1 else NONE)]
+    raise Unanalysable("Result::err on %r" % (v,))
+
+
+@ext("core:Result<T, E>::map_or", "core:Result<T, E>::map_or_else")
+def h_res_map_or(I, st, callee, target, args, ctx):
+    v, dflt, f = args
+    if isinstance(v, VOpaque):
+        out = []
+        for s2, r in opaque_result_cases(I, st, v):
+            out += h_res_map_or(I, s2, callee, target, [r, dflt, f], ctx)
+        return out
+    if isinstance(v, VAdt) and v.adt == RESULT:
+        if v.variant == 0:
+            return I.apply_callable(st, f, [v.fields[0]], ctx)
+        if target["def"].endswith("map_or_else"):
+            return I.apply_callable(st, dflt, [v.fields[0]], ctx)
+        return [(st, dflt)]
+    raise Unanalysable("Result::map_or on %r" % (v,))
+
+
+def _abs_diff(I, st, callee, target, args, ctx):
+    a, b = args
+    la, lb = lin_of(st, a), lin_of(st, b)
+    d = decide_le0(st, lb - la, "abs_diff")       # b <= a
+    return [(st, VInt(a.w, False, lin=(la - lb) if d else (lb - la)))]
+
+
+for _t in ("u8", "u16", "u32", "u64", "usize"):
+    EXT["core:%s::abs_diff" % _t] = _abs_diff
+    CONTRACT["core:%s::abs_diff" % _t] = "total"
+
+
+def _div_ceil(I, st, callee, target, args, ctx):
+    a, b = args
+    lb = lin_of(st, b)
+    if not (isinstance(a, VInt) and lb.is_const() and lb.c > 0):
+        raise Unanalysable("div_ceil by a non-constant")
+    num = VInt(a.w, a.s, lin=lin_of(st, a) + (lb.c - 1))
+    return [(st, I.binop(st, "Div", num, mk_const(lb.c, a.w, a.s)))]
+
+
+for _t in ("u8", "u16", "u32", "u64", "usize"):
+    EXT["core:%s::div_ceil" % _t] = _div_ceil
+    CONTRACT["core:%s::div_ceil" % _t] = "total"
+
+
+EXT["nom::combinator::cond"] = _mk("cond")
+CONTRACT["nom::combinator::cond"] = "total"
+
+
+@parser("cond")
+def p_cond(I, st, pv, inp, ctx):
+    """cond(b, p): Some(output of p) when b, else None without consuming"""
+    b, p = pv.args
+    out = []
+    for s2, truth in _bool_cases(I, st, b, "nom cond"):
+        if not truth:
+            out.append((s2, ok_pair(inp, NONE)))
+            continue
+        for s3, r in run(I, s2, p, inp, ctx):
+            if is_ok(r):
+                rest, v = r.fields[0].items
+                out.append((s3, ok_pair(rest, mk_some(v))))
+            else:
+                out.append((s3, r))
+    return out
+
+
+@ext("heapless:Vec<T, N>::from_slice")
+def h_heapless_from_slice(I, st, callee, target, args, ctx):
+    v = deref(I, st, args[0])
+    dest = ctx["term"]["dest"]
+    ty = ctx["body"]["locals"][dest["l"]] if not dest["p"] else None
+    t = I.f.types[ty]
+    if t["k"] == "adt" and t["def"] == RESULT and isinstance(v, VSlice):
+        okt = I.rty(t["args"][0]["ty"])
+        cap = vec_cap(I, okt)
+        if cap is not None:
+            over = decide_le0(st, -v.len + cap + 1, "heapless from_slice")   # cap < len
+            if over:
+                st.event("capacity_err", "try_from", cap)
+                return [(st, mk_err(UNIT))]
+            return [(st, mk_ok(VSeq(("slice", v.buf, v.start, v.len), cap)))]
+    raise Unanalysable("heapless from_slice %r -> %s" % (v, t["text"]))
